@@ -257,6 +257,12 @@ def merge_to_number(desired_chunks, max_number):
     if len(desired_chunks) <= max_number:
         return desired_chunks
 
+    if 0 in desired_chunks:
+        # Zero-width chunks hold nothing, so merging them away is free; the
+        # loop below also uses 0 to mark a merged-away slot.
+        nonzero = tuple(c for c in desired_chunks if c) or (0,)
+        return merge_to_number(nonzero, max_number)
+
     distinct = set(desired_chunks)
     if len(distinct) == 1:
         w = distinct.pop()
